@@ -166,6 +166,27 @@ func newUniverseAt(owners, serials []string, bodies int, foreign []string, addrs
 	return u, nil
 }
 
+// addTimed adds, for every (owner, serial), two self-issued bodies whose validity window has an edge at the
+// returned wall-clock instant (a whole second, between window and window+1s from now): body Bodies+2 becomes
+// valid then (NotBefore = boundary), body Bodies+3 expires then (NotAfter = boundary).
+func (u *universe) addTimed(window time.Duration) (time.Time, error) {
+	boundary := time.Now().Add(window).Truncate(time.Second).Add(time.Second)
+	for _, o := range u.Owners {
+		for _, s := range u.Serials {
+			for i, w := range [][2]time.Time{{boundary, time.Time{}}, {time.Now().Add(-time.Hour), boundary}} {
+				cb, err := makeCertValid(u.addr[o], u.addr[o], serialOf(s), w[0], w[1])
+				if err != nil {
+					return boundary, err
+				}
+				cb.Owner, cb.Serial, cb.Body, cb.Issuer = o, s, u.Bodies+2+i, o
+				u.certs[fmt.Sprintf("%s|%s|%d", o, s, cb.Body)] = cb
+				u.byPEM[string(cb.CertPEM)] = cb
+			}
+		}
+	}
+	return boundary, nil
+}
+
 func (u *universe) cert(o, s string, b int) *certBody {
 	return u.certs[fmt.Sprintf("%s|%s|%d", o, s, b)]
 }
@@ -174,11 +195,23 @@ func (u *universe) cert(o, s string, b int) *certBody {
 // the given serial number and subject CommonName = bech32(owner). With issuer = owner it is self-signed; else it
 // is issued (signed) by a parent whose subject CommonName = bech32(issuer), with the parent's own key.
 func makeCert(owner, issuer sdk.AccAddress, serial *big.Int) (*certBody, error) {
+	return makeCertValid(owner, issuer, serial, time.Time{}, time.Time{})
+}
+
+// makeCertValid: as makeCert with the given validity window (zero values: from an hour ago, for a year).
+func makeCertValid(owner, issuer sdk.AccAddress, serial *big.Int, notBefore, notAfter time.Time) (*certBody, error) {
 	priv, err := ecdsa.GenerateKey(elliptic.P256(), rand.Reader)
 	if err != nil {
 		return nil, err
 	}
 	nbf := time.Now().Add(-time.Hour)
+	if !notBefore.IsZero() {
+		nbf = notBefore
+	}
+	naf := nbf.Add(365 * 24 * time.Hour)
+	if !notAfter.IsZero() {
+		naf = notAfter
+	}
 	tpl := x509.Certificate{
 		SerialNumber: new(big.Int).Set(serial),
 		Subject: pkix.Name{
@@ -187,7 +220,7 @@ func makeCert(owner, issuer sdk.AccAddress, serial *big.Int) (*certBody, error) 
 		},
 		Issuer:                pkix.Name{CommonName: owner.String()},
 		NotBefore:             nbf,
-		NotAfter:              nbf.Add(365 * 24 * time.Hour),
+		NotAfter:              naf,
 		KeyUsage:              x509.KeyUsageDataEncipherment | x509.KeyUsageKeyEncipherment,
 		ExtKeyUsage:           []x509.ExtKeyUsage{x509.ExtKeyUsageClientAuth},
 		BasicConstraintsValid: true,
